@@ -63,6 +63,7 @@ type Result struct {
 	Sigs       []string            `json:"sigs,omitempty"`
 	SubSeed    uint64              `json:"sub_seed,omitempty"`
 	Digest     string              `json:"digest,omitempty"`
+	Spin       string              `json:"spin,omitempty"`
 	// filled by the driver
 	exit    int
 	crashed bool
@@ -141,6 +142,12 @@ func runWorker(spec Spec) *Result {
 		if jerr := json.Unmarshal(b, res); jerr != nil {
 			res.Infra = "unreadable result: " + jerr.Error()
 		}
+		if res.Spin != "" {
+			// the worker's watchdog found a goroutine spinning inside MOSN for 20 s of real time
+			res.Infra = ""
+			res.Violations = append(res.Violations, sim.Violation{Property: spec.Prop, Class: "no_progress:" + res.Spin, Detail: "after 20 s of real time the run had not reached its next quiescent point: a goroutine was running inside " + res.Spin + " in three stack samples taken 0.5 s apart (a loop that never reaches a blocking point)"})
+			res.crashed = true
+		}
 	} else {
 		// the process died without writing a result: a crash of the system under
 		// test (panic escaping MOSN, fatal error) or of the harness.
@@ -179,7 +186,7 @@ func crashClass(out string) string {
 	for _, l := range strings.Split(out[i:], "\n") {
 		l = strings.TrimSpace(l)
 		if strings.HasPrefix(l, "mosn.io/mosn/pkg/") && !strings.Contains(l, "verifhook") {
-			if k := strings.Index(l, "("); k > 0 {
+			if k := strings.LastIndex(l, "("); k > 0 {
 				l = l[:k]
 			}
 			return strings.TrimPrefix(l, "mosn.io/mosn/pkg/")
@@ -234,6 +241,7 @@ var props = map[string]propDef{
 	"C14": {"C14", "proxy", 40, 600, "W-proxy", 0, 0},
 	"C17": {"C17", "proxy", 40, 600, "W-proxy", 0, 0},
 	"C11": {"C11", "proxy", 40, 600, "W-proxy", 0, 0},
+	"C18": {"C18", "proxy", 40, 600, "W-proxy", 0, 0},
 	"C12": {"C12", "update", 40, 600, "W-update", 0, 0},
 	"C20": {"C20", "update", 40, 600, "W-update", 0, 0},
 	"C05": {"C05", "lb", 30, 600, "W-lb", 200, 0},
